@@ -131,12 +131,17 @@ def actorOpenField (a : Actor) (handle : Nat) : Res × Option (Unit ⊕ Nat) :=
 
 /-! ### the script interpreter of the native test package -/
 
+/-- kinds of effects recorded in the effect log -/
+inductive Eff where
+  | new | drop | globalize
+  deriving DecidableEq, Repr
+
 structure St where
   globals : List Bp
   /-- the faucet's `free` was already called in this transaction (a second call aborts it) -/
   faucetUsed : Bool
   /-- effect log: (actor, effect) in execution order -/
-  log : List (Actor × String × Kind)
+  log : List (Actor × Eff × Kind)
 
 abbrev Regs := List (Option Kind)
 
@@ -176,7 +181,7 @@ def exec : Nat → Actor → Regs → List Nat → St → Out
     | 1 :: name :: rest =>
       let (r, k) := newObject st.globals a name
       let regs' := match k with | some k => regs ++ [some k] | none => regs
-      let st' := match k with | some k => { st with log := st.log ++ [(a, "new", k)] } | none => st
+      let st' := match k with | some k => { st with log := st.log ++ [(a, Eff.new, k)] } | none => st
       let o := exec fuel a regs' rest st'
       { o with trace := r :: o.trace }
     | 2 :: i :: rest =>
@@ -185,7 +190,7 @@ def exec : Nat → Actor → Regs → List Nat → St → Out
       | some k =>
         let r := dropObject a k
         if r = .ok then
-          let o := exec fuel a (clearReg regs i) rest { st with log := st.log ++ [(a, "drop", k)] }
+          let o := exec fuel a (clearReg regs i) rest { st with log := st.log ++ [(a, Eff.drop, k)] }
           { o with trace := r :: o.trace }
         else
           let o := exec fuel a regs rest st
@@ -204,7 +209,7 @@ def exec : Nat → Actor → Regs → List Nat → St → Out
             | .obj b _ =>
               let regs' := if j = 255 then clearReg regs i else clearReg (clearReg regs i) j
               let o := exec fuel a regs' rest
-                { st with globals := st.globals ++ [b], log := st.log ++ [(a, "globalize", k)] }
+                { st with globals := st.globals ++ [b], log := st.log ++ [(a, Eff.globalize, k)] }
               { o with trace := r :: o.trace }
             | _ => ⟨st, regs, [.refused], true⟩
           else ⟨st, regs, [r], true⟩
@@ -283,7 +288,7 @@ def exec : Nat → Actor → Regs → List Nat → St → Out
           -- `Proof::drop` is a FUNCTION of the proof blueprint: the dropping actor is the proof blueprint
           let r := dropObject (.func proofBp) (.obj bp outer)
           let o := exec fuel a (clearReg regs i) rest
-            { st with log := st.log ++ [(.func proofBp, "drop", .obj bp outer)] }
+            { st with log := st.log ++ [(.func proofBp, Eff.drop, .obj bp outer)] }
           { o with trace := r :: o.trace }
         else let o := exec fuel a regs rest st; { o with trace := .noreg :: o.trace }
       | _ => let o := exec fuel a regs rest st; { o with trace := .noreg :: o.trace }
